@@ -30,6 +30,20 @@ MAX_VIOL_PER_SHARD = 60
 
 
 _LAST_ACC = [None]
+# VERIF_FAILFAST=1 (used by tools/check_seeds.sh, where only "is it detected at all" is asked): stop handing
+# out shards as soon as one has reported a violation, report that one unshrunk.  Never set by MANIFEST commands.
+FAILFAST = bool(os.environ.get("VERIF_FAILFAST"))
+
+
+_KNOWN_NOW = [None]
+
+
+def enough(acc):
+    """fail-fast only: a violation that is not a listed known finding has been seen"""
+    if not FAILFAST or not acc.vio_total:
+        return False
+    known = _KNOWN_NOW[0] or {}
+    return any(sig_of(v) not in known for v in acc.violations)
 
 
 def abortable(fn):
@@ -117,6 +131,7 @@ class Ctx:
         self._pool = None
         self.notes = []
         self.aborted = 0           # shards that gave up after repeated confirmed hangs
+        self.failfast_stopped = False
 
     @property
     def quick(self):
@@ -141,9 +156,16 @@ class Ctx:
                 self.aborted += r.extra.get("aborted_shards", 0)
                 acc.merge(r)
             return acc
+        if enough(acc):
+            return acc
         for r in self.pool().imap_unordered(_call, [(fn, s) for s in specs], chunksize):
             self.aborted += r.extra.get("aborted_shards", 0)
             acc.merge(r)
+            if enough(acc):
+                self._pool.terminate()
+                self._pool = None
+                self.failfast_stopped = True
+                break
         return acc
 
     def close(self):
@@ -247,6 +269,7 @@ def run_check(pid, tier):
     seed = int(os.environ.get("VERIF_SEED", "0") or 0)
     mod = importlib.import_module("mc.props." + pid.lower())
     ctx = Ctx(pid, tier, seed)
+    _KNOWN_NOW[0] = load_known().get(pid, {})
     t0 = time.time()
     try:
         out = mod.run(ctx)
@@ -266,6 +289,8 @@ def run_check(pid, tier):
     new, hits = collections.OrderedDict(), collections.Counter()
     shrunk_budget = 40
     hangs = bool(ctx.aborted) or any("spin" in v["diagnosis"].lower() for v in vios)
+    if FAILFAST and vios:
+        shrunk_budget = 0
     if hangs:
         from .lib import impl, loaders
         loaders.SPIN_LIMIT = 10 ** 9          # the parent only replays single cases
@@ -294,6 +319,8 @@ def run_check(pid, tier):
     exit_code = 0
     reported, unreproduced = [], []
     max_rep = 4 if hangs else 25
+    if FAILFAST:
+        max_rep = 3
     confirm_deadline = time.time() + float(os.environ.get("VERIF_CONFIRM_S", "300"))
     skipped = 0
     for s, v in list(new.items())[:max_rep]:
@@ -321,6 +348,9 @@ def run_check(pid, tier):
     cov.setdefault("exhaustive", True)
     if not cov.get("samples"):
         cov["samples"] = [v["case"] for v in vios[:2]] or ["(no case completed)"]
+    if FAILFAST and vios:
+        cov["exhaustive"] = False
+        cov["note"] = (cov.get("note", "") + " fail-fast run: stopped at the first violating shard.").strip()
     if ctx.aborted:
         cov["exhaustive"] = False
         cov["aborted_shards"] = ctx.aborted
